@@ -104,6 +104,13 @@ CLAIMED["C13"] = ("Proof (deductive, all arguments) of the value graph built by 
   "NOT covered: the other 44 builders of the library (not on the emulator's path); the encoding step itself is proved only at primitive level (C03), the traversal being reflection-driven. Trusted: govc, go/ssa, SMT solvers, the transcribed tables, aper.Marshal* assumed to return octets or an error.",
   "DESIGN.md §4 C13")
 
+CLAIMED["C19"] = ("Proof (deductive, every fault position) of the error discipline of the six procedures ManageNGSetup, RegisterUE, EstablishPDU, ServiceRequest, ReleasePDU, DeregisterUE over a ghost N2 association: "
+  "once a Read or Write of the association has failed, or a reply the procedure consumes was not decodable (ghost flag io.fault, raised by the assumed contracts of (*sctp.SCTPConn).Read/Write and ngap.Decoder), no further message is sent and the procedure does not return normally — checked at every send and at the normal return on every path, so every fault position is covered; "
+  "ManageError returns only when its error is nil and otherwise calls os.Exit with a non-zero status. The reply after Registration Complete, whose decoding result the code discards, is exempt as in the statement.",
+  "NOT decided: blocking reads (a silent peer that neither answers nor closes), wall-clock bounds, the real exit status of the process (rests on the model `os.Exit does not return`), main() itself (the banner is printed only after the procedures returned normally, which the obligations tie to the absence of faults). "
+  "Assumed: contracts of sctp Read/Write/Close, ngap.Decoder/Encoder, the NAS constructors and build-and-encode wrappers (return octets or an error); functional preconditions of callees are assumed here (they belong to C01/C02); run-time panics end the process.",
+  "DESIGN.md §I.2 C19")
+
 PENDING = {
 }
 
